@@ -53,6 +53,22 @@ def check(ctx) -> Result:
         calls = [c for c in walk_no_nested(fi.node) if isinstance(c, ast.Call) and src(c.func) == callee]
         if not calls:
             raise AnalysisError(f"Circuit.{m}: call to {callee} not found")
+        # the rewriter is reached on every normal path: an early exit that decides "nothing to do" from the top-level
+        # components alone skips components inside groups
+        cfg_w = ctx.cfg(fi)
+        dom_w = cfg_w.dominators()
+        call_nodes = [nd.id for nd in cfg_w.nodes if nd.ast is not None and nd.kind == "stmt" and any(x is calls[0] for x in ast.walk(nd.ast))]
+        early = [nd for nd in cfg_w.nodes if nd.kind == "stmt" and isinstance(nd.ast, ast.Return) and not any(cn_ in dom_w[nd.id] for cn_ in call_nodes)]
+        for nd in early:
+            guards = [g for g in cfg_w.nodes if g.kind == "test" and g.id in dom_w[nd.id] and isinstance(g.ast, ast.If)]
+            gtxt = " / ".join(src(g.ast.test)[:80] for g in guards)
+            if any("isinstance" in src(g.ast.test) and "Group" not in src(g.ast.test) for g in guards):
+                res.bad("R-rewrite-reaches-groups", f"Circuit.{m}", fi.site(nd.ast), fi.qualname,
+                        f"the rewrite is skipped when `{gtxt}` finds nothing to do among the top-level components: components inside groups are never examined, so the guarantee (also inside groups) is lost", construct=gtxt[:160])
+            else:
+                res.frozen(False, "R-rewrite-reaches-groups", f"Circuit.{m}", fi.site(nd.ast), fi.qualname, "", f"an early return (under `{gtxt}`) bypasses {callee}", construct=gtxt[:160])
+        if not early:
+            res.ok("R-rewrite-reaches-groups", f"Circuit.{m}", fi.site(calls[0]), fi.qualname, f"{callee} is applied on every normal path")
         a = calls[0].args[0]
         if isinstance(a, ast.Name):
             d = [x.value for x in walk_no_nested(fi.node) if isinstance(x, ast.Assign) and src(x.targets[0]) == a.id]
@@ -114,7 +130,8 @@ def check(ctx) -> Result:
     #   for m in S: if m in blocked: <block all>; break   else: <combine>
     #   if any(m in blocked for m in S): <block all>  else: <combine>      (also set intersection / isdisjoint)
     from ..inline import inlined
-    cmsi = inlined(cms.node)
+    from ..inline import else_normal as _en
+    cmsi = inlined(_en(cms.node))
     S = "spec2.swaps"
     conflict = noconf = sw = None
     for n in walk_no_nested(cmsi):
@@ -124,6 +141,10 @@ def check(ctx) -> Result:
                 sw, conflict, noconf = n, tst[0].body, n.orelse
         if isinstance(n, ast.If) and n.orelse:
             t = src(n.test).replace(" ", "")
+            for fnm in ("any", "all"):
+                t = t.replace(f"{fnm}((", f"{fnm}(")
+            while t.endswith("))") and t.count("(") < t.count(")"):
+                t = t[:-1]
             forms_pos = (f"any(minblocked_modesformin{S})", f"blocked_modes&set({S})", f"blocked_modes.intersection({S})", f"notblocked_modes.isdisjoint({S})", f"blocked_modes&{S}.keys()")
             forms_neg = (f"blocked_modes.isdisjoint({S})", f"notany(minblocked_modesformin{S})", f"all(mnotinblocked_modesformin{S})", f"not(blocked_modes&set({S}))", f"notblocked_modes&set({S})")
             import re as _re
@@ -145,7 +166,13 @@ def check(ctx) -> Result:
         if merged_in_conflict:
             res.bad("R-blocked-swap-blocks-all", "compress_mode_swaps", cms.site(sw), cms.qualname, "a swap touching a blocked mode is merged anyway", construct=src(sw)[:200])
         else:
-            res.frozen(blocks_all, "R-blocked-swap-blocks-all", "compress_mode_swaps", cms.site(sw), cms.qualname, "a later swap that touches a blocked mode blocks all of its modes and is not merged", "blocking of all modes of a conflicting swap not recognised", construct=src(sw)[:200])
+            touches = any((isinstance(x, ast.Name) and x.id == "blocked_modes") for x in cw)
+            if blocks_all:
+                res.ok("R-blocked-swap-blocks-all", "compress_mode_swaps", cms.site(sw), cms.qualname, "a later swap that touches a blocked mode blocks all of its modes and is not merged")
+            elif not touches:
+                res.bad("R-blocked-swap-blocks-all", "compress_mode_swaps", cms.site(sw), cms.qualname, "a later swap that touches a blocked mode is left in place but its other modes are not added to the blocked set: a further swap on those modes is then merged backwards across it although the two do not commute", construct=src(sw)[:200])
+            else:
+                res.frozen(False, "R-blocked-swap-blocks-all", "compress_mode_swaps", cms.site(sw), cms.qualname, "", "blocking of all modes of a conflicting swap not recognised", construct=src(sw)[:200])
         comb = [c for c in ast.walk(cmsi) if isinstance(c, ast.Call) and src(c.func) == "combine_mode_swap_dicts"]
         if len(comb) == 1 and comb[0] in nw and len(comb[0].args) == 2:
             args = [src(a_) for a_ in comb[0].args]
